@@ -611,7 +611,7 @@ theorem candidates_complete_aux (n : Nat) {orbs : List Orbit} (hok : orbitsOk or
       have hbi := hbb i (by omega)
       have hvi := hv1 i (by omega)
       by_cases hik : i = k
-      · rw [if_pos hik, hik]; omega
+      · rw [if_pos hik]; rw [hik] at hbi hvi ⊢; omega
       · rw [if_neg hik]
         by_cases hlt : i < k
         · rw [h1 i hlt]; omega
